@@ -5,7 +5,11 @@ from utils/constant.py is bound at import time and never follows the setters;
 getter results are never stored outside a function activation), R19.2 the
 configuration module keeps both globals paired, R19.3 no private float
 tolerance literals in comparisons, R19.4 every rounding precision is derived
-from the live getter.  The numeric clauses (eps/1000 compares equal, 4*eps does
+from the live getter, R19.5 no branch decides on the exact value (truthiness,
+== c, != c) of a coordinate-derived float (g3dsa/exact.py; utils/solver.py is
+outside: its pivot test belongs to the elimination algorithm), R19.6 no set /
+dictionary / membership test is keyed by the raw coordinates of a Point or
+Vector (identity goes through the tolerant __eq__ / __hash__).  The numeric clauses (eps/1000 compares equal, 4*eps does
 not) are NOT decided.
 """
 from __future__ import annotations
@@ -439,7 +443,8 @@ def run(ctx, res):
         "Scoping/dataflow decision that every tolerance used by the library is a live read of the configuration: "
         "no expression outside utils/constant.py reads the import-time names FLOAT_EPS/SIG_FIGURES, getter results "
         "are never cached beyond a function activation, every rounding precision derives from get_sig_figures(), "
-        "no comparison uses a private float literal below 1e-3, and both setters assign both globals on every path "
+        "no comparison uses a private float literal below 1e-3, no branch tests a coordinate-derived float exactly "
+        "(truthiness, == c, != c; two tabled constructor validations excepted), and both setters assign both globals on every path "
         "with the pair (1e-10, 10) at the defaults (constant folding of the setters' own expressions). Whether a "
         "perturbation of eps/1000 compares/hashes equal and 4*eps unequal is numeric and NOT decided."
     )
@@ -447,5 +452,14 @@ def run(ctx, res):
     r192(ctx, res)
     r193(ctx, res)
     r194(ctx, res)
+    # R19.5 no decision on the exact value of a coordinate-derived float outside the solver
+    from ..exact import report_exact
+    fs = [f for f in ctx.repo.functions(include_visualization=False) if not f.module.name.endswith("utils.solver")]
+    k = report_exact(ctx, res, "R19.5", fs, "the library")
+    ctx.require(res, "R19.5", k, 250, "decision atoms examined")
+    # R19.6 identity of points / vectors is decided by their tolerant __eq__ / __hash__, never by raw coordinate tuples
+    from ..exact import report_coordinate_keys
+    k6 = report_coordinate_keys(ctx, res, "R19.6", fs, "the library")
+    ctx.require(res, "R19.6", k6, 150, "functions scanned")
     res.undecided_ob("numeric clauses: eps/1000 perturbations compare and hash equal, 4*eps perturbations compare unequal")
-    res.undecided_ob("exact `== 0` / `!= 0` tests on floats (find_pivot_row, v.length() == 0) are not tolerance reads; see C15/C16")
+    res.undecided_ob("the exact `!= 0` pivot test of utils/solver.py (find_pivot_row) is part of the elimination algorithm; see C16")
